@@ -45,7 +45,7 @@ pub const BCAST_BEGIN: u64 = 41; // a ty
 pub const BCAST_END: u64 = 47; // a ty    (send_to_children returned)
 pub const TIMER_SLEEP: u64 = 42; // a k d    (timer task k of a starts sleeping d)
 
-pub const BROKER: u64 = 44; // b what a h   (what: 0 publish begins, 1 holds, 2 target, 3 published, 4 subscribe, 5 unsubscribe)
+pub const BROKER: u64 = 44; // b what a h   (what: 0 publish begins, 1 holds, 2 target, 3 published, 4 subscribe, 5 unsubscribe, 6 the broker's topic (in the a field))
 pub const TOPIC_OP: u64 = 45; // o c kind topic x   (kind: 0 publish (x = value), 1 subscribe (x = actor), 2 unsubscribe (x = actor))
 pub const TOPIC_RET: u64 = 46; // o ok
 pub const PROBE: u64 = 43; // a o  (the registry pings the instance it just spawned)
